@@ -2,10 +2,14 @@
 EXTENDS Catalog, IoAsync
 CONSTANTS MsgId, NMsgs
 MT == TypeOf(MsgId)
-GenLen == RoomyMin(MT) + 2 * Align(MT) + 1
+\* (a FlexVec message gets room for a second and third item: reads / writes that end exactly at an item boundary)
+GenLen == RoomyMin(MT) + 2 * Align(MT) + 1 + (IF MT.k = "flex" THEN 2 * (FlexOffsetSize(MT) + CeilMul(MinSize(MT.elem[1]), Align(MT))) ELSE 0)
 Conts == LET tv == TV(MT, GenLen)  n == Len(tv)  m == MinI(n, 5)
              idx(j) == IF m = 1 THEN 1 ELSE 1 + ((j - 1) * (n - 1)) \div (m - 1)
-         IN [j \in 1..m |-> Content(tv[idx(j)], MT)]
+             \* for a FlexVec message the middle pick is a tree with the most items
+             most == CHOOSE i \in 1..n : \A k \in 1..n : Len(tv[i].items) >= Len(tv[k].items)
+             pick(j) == IF MT.k = "flex" /\ j = (m + 1) \div 2 THEN most ELSE idx(j)
+         IN [j \in 1..m |-> Content(tv[pick(j)], MT)]
 MaxLenOf(cs) == LET RECURSIVE go(_) go(i) == IF i > Len(cs) THEN MinSize(MT) ELSE MaxI(Size(Build(cs[i], MT, 4 * GenLen).tree, MT), go(i + 1)) IN go(1)
 MML == MaxLenOf(Conts)
 BufCap == 2 * MaxI(MML, MinSize(MT))
